@@ -130,7 +130,11 @@ def plan(prop, tier):
                     ("c02_walk_mem", C(MaxBatches=6, MaxPokes=2, SimLen=16, MaxSnaps=2, HasLL="FALSE", LLInit="FALSE"), 30 if q else 200)]
         P["edges"] = []
         P["sim"].append(("c02_walk_pre", C(MaxBatches=5, MaxPokes=2, SimLen=18, MaxSnaps=1, MaxReopens=1, InitKeys="{1}"), 60 if q else 400))
-        P["dims"] = {"c02_walk_pre": [dims("store", preload=[1], rolling=True), dims("store", preload=[1], compaction="force"), dims("store", preload=[1], rolling=True, **partial())],
+        # nested child collections that are in the store from the start: a snapshot taken early reads its grandchild through the
+        # lower level, again and again, while child snapshots of the level in between are opened and closed around it
+        P["sim"].append(("c02_walk_kids2", C(Tree='"aa"', NKeys=1, OpAlpha='{"s1","s2","d"}', MaxOps=1, MaxBatches=5, MaxPokes=1, SimLen=18, MaxSnaps=2, InitKids='{"a","a/a"}'), 50 if q else 400))
+        P["dims"] = {"c02_walk_kids2": [dims("store", "aa", 1, preloadKids=["a", "a/a"], rolling=True), dims("store", "aa", 1, preloadKids=["a", "a/a"], compaction="force")],
+                     "c02_walk_pre": [dims("store", preload=[1], rolling=True), dims("store", preload=[1], compaction="force"), dims("store", preload=[1], rolling=True, **partial())],
                      "c02_walk": [dims("store", compaction="force", rolling=True), dims("store", compaction="allow", levelMaxSegs=1, levelMult=2),
                                   dims("store", cachePersisted=False, deferredSort=True, rolling=True), dims("app", rolling=True), dims("store", rolling=True, **partial()),
                                   dims("store", cachePersisted=True, rolling=True), dims("app", cachePersisted=True, rolling=True)],
@@ -149,7 +153,9 @@ def plan(prop, tier):
         P["dims"] = {"c04_walk_kids_pre": [dims("store", "aa", 1, preloadKids=["a", "a/a"], diskCheck=True), dims("store", "aa", 1, preloadKids=["a", "a/a"], compaction="force", diskCheck=True)],
                      "c04_walk": [dims("store", diskCheck=True), dims("store", compaction="force", diskCheck=True), dims("store", compaction="allow", levelMaxSegs=2, levelMult=2), dims("store", noSync=True, deferredSort=True),
                                   dims("store", **partial())],
-                     "c04_walk_pre": [dims("store", nkeys=3, preload=[1], **partial(levelMaxSegs=1)), dims("store", nkeys=3, preload=[1], **partial())],
+                     # preloadRounds: the store starts with 34 persisted rounds in one file -- a footer of more than a page, a long history
+                     "c04_walk_pre": [dims("store", nkeys=3, preload=[1], **partial(levelMaxSegs=1)), dims("store", nkeys=3, preload=[1], **partial()),
+                                      dims("store", nkeys=3, preload=[1], preloadRounds=34, diskCheck=True)],
                      "c04_walk_kids": [dims("store", "aa", 1), dims("store", "aa", 1, compaction="force"), dims("store", "aa", 1, compaction="allow", levelMaxSegs=1, levelMult=2),
                                        dims("store", "aa", 1, **partial())]}
         P["relevant"] = r"^reopen|^lower|^conformance|^gauges0\.lower"
